@@ -7,6 +7,10 @@
     * parseHeader refuses `Size < 10` (the header size)   — was: slice panic `[10:5]`, and `Size = 0` never advanced;
     * the UCS-2 name terminator is searched at even offsets only;
     * UCS2ToUTF8 of an empty name does not index `[-1]`.
+  and as repaired by wp-nvfix (round 3):
+    * NewNVarStore refuses a store whose GUID store has grown into the entries (`FreeSpaceOffset > GUIDStoreOffset`
+      after an entry) — was: accepted, the same bytes were entry content and GUID store;
+    * newNVar does not read the content of an entry with an extended header as a nested store.
   Every slice / index / make of the Go functions is a faulting primitive; `bytes.Reader` reads and seeks
   are ordinary errors.  Nested stores recurse on the entry's content, which is at least 11 bytes shorter
   than the entry, so fuel `2·|buf| + 3` never runs out (TotalNvarSafe.lean).
@@ -198,11 +202,14 @@ def newNvarG (pol : UInt8) : Nat → Bytes → Nat → NvS → GoM (Option (NvE 
     -- parseDataOnly / parseGUID / parseName
     let r ← nvIdentG s vbuf attrs e1 offset
     let (e2, guids) := r
-    -- parseContent(v.buf[v.DataOffset:]) — errors are dropped
-    let content ← sliceFromG "newNVar: v.buf[v.DataOffset:]" vbuf e2.dataOffset
-    if content.take 4 = nvarSig ∧ 4 ≤ content.length then do
-      let ns ← nvarStoreG pol fuel content
-      pure (some ({ e2 with nested := ns }, guids))
+    -- if v.Header.Attributes&NVarEntryExtHeader == 0 { _ = v.parseContent(v.buf[v.DataOffset:]) } — errors are
+    -- dropped; behind an extended header the content is never read as a nested store (fix wp-nvfix, F-c10c-1)
+    if attrs &&& 0x10 = 0 then do
+      let content ← sliceFromG "newNVar: v.buf[v.DataOffset:]" vbuf e2.dataOffset
+      if content.take 4 = nvarSig ∧ 4 ≤ content.length then do
+        let ns ← nvarStoreG pol fuel content
+        pure (some ({ e2 with nested := ns }, guids))
+      else pure (some (e2, guids))
     else pure (some (e2, guids))
 termination_by structural fuel _ _ _ => fuel
 
@@ -217,6 +224,9 @@ def nvarLoopG (pol : UInt8) : Nat → NvS → GoM NvS
         match ← newNvarG pol fuel eb s.fso s with
         | none => pure s
         | some (e, guids) =>
+          -- if s.FreeSpaceOffset > s.GUIDStoreOffset { return nil, err }: the GUID index of this entry grew the
+          -- GUID store into the entries (fix wp-nvfix, fixes/C04-nvar-table-overlap.diff)
+          if s.fso + e.size > s.length - 16 * guids.length then err else
           nvarLoopG pol fuel { s with entries := s.entries ++ [e], guids := guids, fso := s.fso + e.size,
                                       gso := s.length - 16 * guids.length }
     else pure s
